@@ -1941,6 +1941,27 @@ fn plan_keeper(w: &World, actor: &mut Actor, l: &Ledger) -> Vec<(Tx, String)> {
             }
         }
     }
+    if rng.chance(1, 10) {
+        // anyone may create tick arrays: on the grid far from the price, at both ends of the tick axis, and at starts that are
+        // off the grid by a tick, a spacing or half a width, below the lowest array or beyond the highest tick (to be refused)
+        let sp = pi.keys.tick_spacing;
+        let width = 88 * sp as i32;
+        let lowest = ta_start(decode::MIN_TICK, sp);
+        let highest = ta_start(decode::MAX_TICK, sp);
+        let near = l.data(&pi.keys.whirlpool).and_then(decode::pool).map(|p| ta_start(p.tick_current_index, sp)).unwrap_or(0);
+        let far = near + width * rng.range(-6, 6) as i32;
+        let base = *rng.pick(&[lowest, lowest, highest, near, far]);
+        let start = base + *rng.pick(&[0, 0, 0, 1, -1, sp as i32, -(sp as i32), width / 2, width, -width, decode::MIN_TICK - lowest]);
+        // (the coin is always drawn, so that twin runs differing only in the array kind consume the same stream)
+        let coin = rng.chance(1, 2);
+        let dynamic = match FORCE_ARRAY_KIND.with(|c| c.get()) {
+            Some(0) => false,
+            Some(1) => true,
+            _ => coin,
+        };
+        let i = if dynamic { ix::initialize_dynamic_tick_array(&pi.keys.whirlpool, &actor.wallet, start, false) } else { ix::initialize_tick_array(&pi.keys.whirlpool, &actor.wallet, start) };
+        flow.push((tx1(i), "init_tick_array (keeper, any start)".to_string()));
+    }
     if rng.chance(1, 12) {
         // anyone may send the (signer-less) migration of the legacy reward-authority space; pools created by this program
         // version are born migrated, so it must be refused and change nothing - whatever control flags the pool carries
